@@ -153,6 +153,20 @@ CLAIMED = {
              "right-hand sides of real setup() runs; oracle: observed error orders on three refinements, with and without extrapolation.",
         design_ref="DESIGN.md section 4, C02", note="asymptotic order only measured (calibrated thresholds); F9 (wrong shipped source terms, open) is reported as known finding.",
         technique="Lean 4 proof of consistency identities + rhs correspondence + order oracle"),
+    "C19": dict(
+        category="proof",
+        text="Lean 4 theorems (real analysis, Mathlib HasDerivAt) about terms REGENERATED from the C++ on every run by tools/cxx_expr.py (68 "
+             "analytic functions): the hand-written Jacobian entries of the Circular, Shafranov and Czarny mappings are the partial derivatives "
+             "of Fx, Fy for all parameters and all (r, theta) of the domain (Czarny: 0 < eps < 1, 0 <= r <= Rmax), closed-form determinants; "
+             "alpha*beta = 1 for the three Gyro profiles (Sonnendrucker: arctan bound proved, r <= Rmax); alpha > 0; boundary data = exact "
+             "solution for all 12 problem classes; the symbolic derivative D and the model's PDE operator Lu are correct (HasDerivAt, "
+             "flux_spec, metric_is_inverse, Lu_is_pde).  PARTIAL for the ~70 generated source-term classes: their C++ is too large to "
+             "translate into kernel-checkable terms, so `rhs_f = Lu(exact solution)` is checked pointwise (model-derived operator vs the "
+             "real class, 3 000 points per run) — that part is correspondence, not proof.  Culham (table-driven) by finite differences.",
+        design_ref="DESIGN.md section R.3 / section 4, C19",
+        note="F9 (three Poisson x Czarny source terms, open) is reported as a known finding; F8 (Culham cos 2theta) fixed.  Trusted: the "
+             "translator's expression grammar (an unknown construct is an extraction failure = broken obligation).",
+        technique="Lean 4 proof over translator-generated terms (symbolic differentiation proved correct) + pointwise correspondence for source terms"),
     "C18": dict(
         category="proof",
         text="Lean 4 theorems over exact rationals and unbounded parameters: the anisotropic radial division (whole routine, every array "
